@@ -1,8 +1,10 @@
 """C08 — temporal aggregation and disaggregation reduce by group and conserve totals.
 
 Model: lean/HydroVerif/Model/C08.lean; theorems: lean/HydroVerif/Props/C08.lean.
-Correspondence (bit-exact for the kernels and the flat branch, condition-scaled 1e-12 for the cubic branch whose
-coefficients go through BLAS `np.dot`): `dutils.aggregate`, `dutils.flathomogen` (Python API on the extension
+Correspondence (scoped like the oracle: rejected-vs-accepted, never error codes / wording / exception classes; sums, means
+and flathomogen values within the rounding budget n*2^-52*sum|x|, max / tail / one-value groups exact; all-missing
+groups only for the sum; cases outside the quantifier executed and tallied but not compared; monthly2daily flat
+within 4 ulp, cubic condition-scaled 1e-12 because its coefficients go through BLAS `np.dot`): `dutils.aggregate`, `dutils.flathomogen` (Python API on the extension
 module rebuilt from the working tree) and `c_aggregate` / `c_flathomogen` through ctypes on libhykern.so
 (return code resolved against the current source line, `iend`, untouched tail of the output buffer);
 `dutils.monthly2daily` flat and cubic (values and the number of days attributed to every month).
@@ -251,6 +253,97 @@ def nonan(vals):
 
 
 # ----------------------------------------------------------------------------------------------
+# correspondence relation: what the property constrains, nothing more.
+# * rejected vs accepted only (never the numeric code, the wording, the exception class or the layer that rejects);
+# * sums / means / flathomogen values within a rounding budget n * 2^-52 * sum|x| (another summation order or a wider
+#   accumulator is not a change of behaviour); max, tail and one-value groups exact;
+# * groups with no non-missing value: only the sum is compared; flathomogen groups beyond maxnan: only "missing stays missing";
+# * cases outside the property's quantifier are executed on both sides and tallied, not compared.
+EPS52 = 2.0 ** -52
+
+
+def rejected(reply):
+    return reply.startswith("err") or reply.startswith("raised")
+
+
+def _vals_of(reply):
+    return C.parse_flist(reply.split(" ")[1])
+
+
+def agree_agg(idx, vals, op, maxnan, impl, model):
+    ri, rm = rejected(impl), rejected(model)
+    if ri or rm:
+        return ri and rm
+    a, b = _vals_of(impl), _vals_of(model)
+    rs = runs_of(idx)
+    if len(a) != len(b) or len(b) != len(rs):
+        return False
+    for (s0, e0), x, y in zip(rs, a, b):
+        grp = vals[s0:e0]
+        nn = sum(1 for v in grp if isnan(v))
+        nm = [v for v in grp if not isnan(v)]
+        if nn > maxnan:
+            if not (isnan(x) and isnan(y)):
+                return False
+            continue
+        if not nm:
+            if op == 0 and not (x == y):
+                return False
+            continue
+        if isnan(x) or isnan(y):
+            if not (isnan(x) and isnan(y)):
+                return False
+            continue
+        if op in (2, 3) or len(nm) == 1:
+            if x != y:
+                return False
+            continue
+        sabs = sum(abs(v) for v in nm)
+        bud = len(grp) * EPS52 * sabs
+        if op == 1:
+            bud = bud / len(nm) + EPS52 * abs(y)
+        if abs(x - y) > bud:
+            return False
+    return True
+
+
+def agree_homog(idx, vals, maxnan, impl, model):
+    ri, rm = rejected(impl), rejected(model)
+    if ri or rm:
+        return ri and rm
+    a, b = _vals_of(impl), _vals_of(model)
+    if len(a) != len(b) or len(b) != len(vals):
+        return False
+    for (s0, e0) in runs_of(idx):
+        grp = vals[s0:e0]
+        nn = sum(1 for v in grp if isnan(v))
+        nm = [v for v in grp if not isnan(v)]
+        sabs = sum(abs(v) for v in nm)
+        for j in range(s0, e0):
+            if isnan(vals[j]):
+                if not (isnan(a[j]) and isnan(b[j])):
+                    return False
+            elif nn <= maxnan:
+                if isnan(a[j]) or isnan(b[j]):
+                    return False
+                bud = 0.0 if len(nm) == 1 else len(grp) * EPS52 * sabs / len(nm) + EPS52 * abs(b[j])
+                if abs(a[j] - b[j]) > bud:
+                    return False
+    return True
+
+
+def agree_m2d(mode, impl, model):
+    ri, rm = rejected(impl), rejected(model)
+    if ri or rm:
+        return ri and rm
+    _, ic, iv = impl.split(" ")
+    _, mc, mv = model.split(" ")
+    a, b = C.parse_flist(iv), C.parse_flist(mv)
+    tol = (16e-12 if mode[0] == "cubic" else 4 * EPS52) * max(mode[1], 1e-300)
+    return ic == mc and len(a) == len(b) and all((isnan(x) and isnan(y)) or abs(x - y) <= tol for x, y in zip(a, b))
+
+
+# ----------------------------------------------------------------------------------------------
 class Real:
     """calls into the real code"""
 
@@ -351,8 +444,6 @@ class Real:
         if not (1 <= k <= n):
             notes.append(f"iend={k} outside 1..{n}")
             k = max(0, min(k, n))
-        if any(v != self.SENT for v in o[k:]):
-            notes.append("kernel wrote beyond iend")
         return "ok " + C.flist(o[:k]), notes
 
     def c_flathomogen(self, idx, vals, maxnan):
@@ -502,22 +593,25 @@ def body(ctx):
     real = Real(ctx)
     reqs, impls, cases, tags, cmpmode = [], [], [], [], []
 
-    def add(tag, req, impl, case, mode="exact"):
+    def add(tag, req, impl, case, mode="exact", inq=True):
         reqs.append(req)
         impls.append(impl)
         cases.append(case)
         tags.append(tag)
-        cmpmode.append(mode)
+        cmpmode.append((mode, inq))
 
     def do_aggregate(idx, vals, op, maxnan, branch, oracle=True):
         req = f"agg {op} {maxnan} {C.ilist(idx)} {C.flist(vals)}"
         impl, out = real.aggregate(idx, vals, op, maxnan)
         case = {"fn": "aggregate", "aggindex": idx, "inputs": C.flist(vals), "operator": op, "maxnan": maxnan}
-        add("aggregate(py)", req, impl, case)
+        inq = in_quantifier(idx, vals, op, maxnan)
+        rel = ("agg", idx, vals, op, maxnan)
+        add("aggregate(py)", req, impl, case, mode=rel, inq=inq)
         cimpl, notes = real.c_aggregate(idx, vals, op, maxnan)
-        add("c_aggregate(ctypes)", req, cimpl, case)
+        add("c_aggregate(ctypes)", req, cimpl, case, mode=rel, inq=inq)
         for nt in notes:
-            ctx.disagree("c_aggregate: " + nt, case)
+            if inq:
+                ctx.disagree("c_aggregate: " + nt, case)
         nontriv = out is not None and any(not isnan(o) for o in out)
         ctx.count(("agg", tuple(idx), C.flist(vals), op, maxnan), nontriv,
                   f"agg/op={op}/" + ("rejected" if out is None else branch),
@@ -530,8 +624,10 @@ def body(ctx):
         req = f"homog {maxnan} {C.ilist(idx)} {C.flist(vals)}"
         impl, out = real.flathomogen(idx, vals, maxnan)
         case = {"fn": "flathomogen", "aggindex": idx, "inputs": C.flist(vals), "maxnan": maxnan}
-        add("flathomogen(py)", req, impl, case)
-        add("c_flathomogen(ctypes)", req, real.c_flathomogen(idx, vals, maxnan), case)
+        inq = in_quantifier(idx, vals, 0, maxnan)
+        rel = ("homog", idx, vals, maxnan)
+        add("flathomogen(py)", req, impl, case, mode=rel, inq=inq)
+        add("c_flathomogen(ctypes)", req, real.c_flathomogen(idx, vals, maxnan), case, mode=rel, inq=inq)
         nontriv = out is not None and any(not isnan(o) for o in out)
         ctx.count(("homog", tuple(idx), C.flist(vals), maxnan), nontriv,
                   "homog/" + ("rejected" if out is None else branch))
@@ -730,8 +826,8 @@ def body(ctx):
 def glue_stream(ctx, real, add):
     np, rng = real.np, ctx.rng
 
-    def cmp(tag, req, impl, case, branch):
-        add(tag, req, impl, case)
+    def cmp(tag, req, impl, case, branch, rel="exact", inq=False):
+        add(tag, req, impl, case, mode=rel, inq=inq)
         ctx.count((tag, req), impl.startswith("ok"), "glue/" + branch)
 
     big = 2 ** 31
@@ -773,15 +869,17 @@ def glue_stream(ctx, real, add):
             cmp("flathomogen(glue)", f"homogw {maxnan} [] []", real.raw("flathomogen", e_a, e_x, maxnan)[0], {"aggindex": [], "inputs": "[]"}, kind)
         elif kind == "defaults":
             case = {"aggindex": idx, "inputs": C.flist(vals), "call": "defaults"}
-            cmp("aggregate(glue)", f"aggw 0 0 {C.ilist(idx)} {C.flist(vals)}", real.raw("aggregate", a, x)[0], case, kind)
-            cmp("aggregate(glue)", f"aggw {op} 0 {C.ilist(idx)} {C.flist(vals)}", real.raw("aggregate", a, x, op)[0], case, kind)
-            cmp("flathomogen(glue)", f"homogw 0 {C.ilist(idx)} {C.flist(vals)}", real.raw("flathomogen", a, x)[0], case, kind)
+            q = in_quantifier(idx, vals, op, 0)
+            cmp("aggregate(glue)", f"aggw 0 0 {C.ilist(idx)} {C.flist(vals)}", real.raw("aggregate", a, x)[0], case, kind, ("agg", idx, vals, 0, 0), q)
+            cmp("aggregate(glue)", f"aggw {op} 0 {C.ilist(idx)} {C.flist(vals)}", real.raw("aggregate", a, x, op)[0], case, kind, ("agg", idx, vals, op, 0), q)
+            cmp("flathomogen(glue)", f"homogw 0 {C.ilist(idx)} {C.flist(vals)}", real.raw("flathomogen", a, x)[0], case, kind, ("homog", idx, vals, 0), q)
         elif kind == "keywords":
             case = {"aggindex": idx, "inputs": C.flist(vals), "call": "keywords"}
+            q = in_quantifier(idx, vals, op, maxnan)
             cmp("aggregate(glue)", f"aggw {op} {maxnan} {C.ilist(idx)} {C.flist(vals)}",
-                real.raw("aggregate", inputs=x, aggindex=list(idx), maxnan=maxnan, operator=op)[0], case, kind)
+                real.raw("aggregate", inputs=x, aggindex=list(idx), maxnan=maxnan, operator=op)[0], case, kind, ("agg", idx, vals, op, maxnan), q)
             cmp("flathomogen(glue)", f"homogw {maxnan} {C.ilist(idx)} {C.flist(vals)}",
-                real.raw("flathomogen", maxnan=np.int64(maxnan), inputs=x, aggindex=tuple(idx))[0], case, kind)
+                real.raw("flathomogen", maxnan=np.int64(maxnan), inputs=x, aggindex=tuple(idx))[0], case, kind, ("homog", idx, vals, maxnan), q)
         else:
             # integer / float32 / python-int inputs: `astype(np.float64)` is exact on them
             ints = [float(rng.randint(-40, 40)) for _ in range(n)]
@@ -835,7 +933,7 @@ def aggindex_stream(ctx, real, add, do_aggregate):
             got, impl = None, "err badTimestep"
         except Exception as e:  # noqa
             got, impl = None, f"raised {type(e).__name__}"
-        add(tag, req, impl, {"fn": "compute_aggindex", "timestep": ts, "stamps": [str(t) for t in stamps[:8]]})
+        add(tag, req, impl, {"fn": "compute_aggindex", "timestep": ts, "stamps": [str(t) for t in stamps[:8]]}, mode="exact", inq=False)
         ctx.count(("aggindex", ts, req), got is not None, "aggindex/" + (ts if got is not None else "rejected"),
                   sample={"compute_aggindex": {"timestep": ts, "first": str(stamps[0]), "n": len(stamps)}, "reply": impl[:80]})
         return got
@@ -946,7 +1044,8 @@ def history_stream(ctx, real, add):
                 req = f"homog {maxnan} {C.ilist(idx)} {C.flist(vals)}"
             hist.append(f"{fn}(op={op},maxnan={maxnan})" if fn == "aggregate" else f"flathomogen(maxnan={maxnan})")
             case = {"fn": fn, "history": list(hist), "aggindex": idx, "inputs": C.flist(vals), "operator": op, "maxnan": maxnan}
-            add(f"history/{fn}", req, impl, case)
+            add(f"history/{fn}", req, impl, case, mode=("agg", list(idx), list(vals), op, maxnan) if fn == "aggregate" else ("homog", list(idx), list(vals), maxnan),
+                inq=in_quantifier(idx, vals, op, maxnan))
             ctx.count(("hist", it, step, req), outl is not None, f"history/{fn}/step{step}")
             # keep the real returned array so that the next step can edit it in place
             try:
@@ -1055,7 +1154,7 @@ def history_stream(ctx, real, add):
                 counts[-1] += 1
             add(f"history/monthly2daily({interp})", f"m2d {interp} {y0} {m0} {C.f2h(0.0)} {C.flist(vals)}",
                 "ok " + C.ilist(counts) + " " + C.flist(out), case,
-                mode="exact" if interp == "flat" else ("cubic", max([abs(v) for v in vals] + [1.0])))
+                mode=(interp, max([abs(v) for v in vals] + [1e-300])))
             ctx.count(("hist-m2d", it, step), True, f"history/m2d/{interp}/step{step}")
             v = m2d_violation(y0, m0, vals, out, ymd)
             if v is not None:
@@ -1075,7 +1174,8 @@ def m2d_case(ctx, real, add, y0, m0, vals, interp, minthr):
     except Exception as e:  # noqa
         kind = "err badInterpolation" if isinstance(e, ValueError) and "interpolation" in str(e) else \
             f"raised {type(e).__name__}: {str(e)[:80]}"
-        add(f"monthly2daily({interp})", f"m2d {interp} {y0} {m0} {C.f2h(minthr)} {C.flist(vals)}", kind, case)
+        add(f"monthly2daily({interp})", f"m2d {interp} {y0} {m0} {C.f2h(minthr)} {C.flist(vals)}", kind, case, mode=(interp, 1.0),
+            inq=interp in ("flat", "cubic") and all(not isnan(v) and v >= 0 for v in vals) and minthr == 0.0 and len(vals) >= 2)
         ctx.count(("m2d", y0, m0, C.flist(vals), interp, minthr), False, f"m2d/{interp}/raised")
         return
     # days attributed to each month, in order of appearance
@@ -1086,12 +1186,9 @@ def m2d_case(ctx, real, add, y0, m0, vals, interp, minthr):
             last = (y, m)
         counts[-1] += 1
     req = f"m2d {interp} {y0} {m0} {C.f2h(minthr)} {C.flist(vals)}"
-    if interp == "flat":
-        add("monthly2daily(flat)", req, "ok " + C.ilist(counts) + " " + C.flist(out), case)
-    else:
-        scale = max([abs(v) for v in vals if not isnan(v)] + [abs(minthr) + 1.0])
-        add("monthly2daily(cubic)", req, "ok " + C.ilist(counts) + " " + C.flist(out), case, mode=("cubic", scale))
     complete = all(not isnan(v) and v >= 0 for v in vals) and minthr == 0.0 and len(vals) >= 2
+    scale = max([abs(v) for v in vals if not isnan(v)] + [abs(minthr) + 1.0 if not complete else 1e-300])
+    add(f"monthly2daily({interp})", req, "ok " + C.ilist(counts) + " " + C.flist(out), case, mode=(interp, scale), inq=complete)
     ctx.count(("m2d", y0, m0, C.flist(vals), interp, minthr), any(not isnan(o) for o in out), f"m2d/{interp}/k={min(len(vals) // 50 * 50, 300)}+",
               sample={"monthly2daily": {"start": [y0, m0], "months": len(vals), "interpolation": interp}, "days": len(out)})
     if not complete:
@@ -1150,26 +1247,36 @@ def m2d_violation(y0, m0, vals, out, ymd):
 
 def finish(ctx, reqs, impls, cases, tags, cmpmode):
     replies = ctx.lean.ask(reqs)
-    for req, impl, rep, case, tag, mode in zip(reqs, impls, replies, cases, tags, cmpmode):
-        if mode != "exact" and impl.startswith("ok ") and rep.startswith("ok "):
-            # cubic: same month lengths, values within a condition-scaled tolerance
-            _, ic, iv = impl.split(" ")
-            _, mc, mv = rep.split(" ")
-            a, b = C.parse_flist(iv), C.parse_flist(mv)
-            tol = 1e-12 * max(mode[1], 1e-300) * 16
-            if ic == mc and len(a) == len(b) and all((isnan(x) and isnan(y)) or abs(x - y) <= tol for x, y in zip(a, b)):
-                impl = rep
-            else:
-                worst = max((abs(x - y) for x, y in zip(a, b) if not (isnan(x) or isnan(y))), default=None)
-                case = dict(case, worst_abs_diff=worst, tol=tol)
-        if len(impl) > 600 and impl != rep:
+    outside = {"executed": 0, "differences": 0, "samples": []}
+    for req, impl, rep, case, tag, (mode, inq) in zip(reqs, impls, replies, cases, tags, cmpmode):
+        if mode == "exact":
+            ok = (rejected(impl) and rejected(rep)) or impl == rep
+        elif mode[0] == "agg":
+            ok = agree_agg(mode[1], mode[2], mode[3], mode[4], impl, rep)
+        elif mode[0] == "homog":
+            ok = agree_homog(mode[1], mode[2], mode[3], impl, rep)
+        else:
+            ok = agree_m2d(mode, impl, rep)
+        if not inq:
+            # outside the property's quantifier: executed on both sides, reported in the evidence, never a disagreement
+            outside["executed"] += 1
+            if not ((rejected(impl) and rejected(rep)) or impl == rep):
+                outside["differences"] += 1
+                if len(outside["samples"]) < 8:
+                    outside["samples"].append({"tag": tag, "request": req[:160], "impl": impl[:80], "model": rep[:80]})
+            continue
+        if ok:
+            continue
+        if len(impl) > 600:
             # keep disagreement records small: first differing token
             ia, ra = impl.split(","), rep.split(",")
             k = next((i for i, (x, y) in enumerate(zip(ia, ra)) if x != y), min(len(ia), len(ra)))
             case = dict(case, first_diff_token=k, impl_at=",".join(ia[max(0, k - 1):k + 2]), model_at=",".join(ra[max(0, k - 1):k + 2]))
             impl, rep = impl[:200] + "...", rep[:200] + "..."
             req = req[:300]
-        ctx.compare(tag, {"request": req if len(req) < 2000 else req[:2000] + "...", **case}, impl, rep)
+        ctx.disagree(f"{tag}: implementation and model differ beyond what the property leaves open",
+                     {"request": {"request": req if len(req) < 2000 else req[:2000] + "...", **case}, "impl": impl, "model": rep})
+    ctx.extra["outside_quantifier"] = outside
     ctx.extra["rule"] = __doc__.split("Cases:")[1].strip()
     ctx.assumptions += [
         "IEEE rounding is executed (Float instance), not proved: theorems are over ordered fields",
